@@ -791,6 +791,64 @@ func (ex *Exec) evalCall(env *Env, x *ECall) Val {
 		return ex.evalCallArg(env, args)
 	case "callres":
 		return ex.evalCallRes(env, args)
+	case "isclosure":
+		// isclosure(v, "Fn$1"): v is the closure created from that function literal in this execution
+		v := ex.eval(env, args[0])
+		name := strArg(args[1])
+		ref := v.L[len(v.L)-1]
+		var alts []*Term
+		for r, fn := range ex.closureFn {
+			if fn.Name() == name && r.Op != "intconst" {
+				alts = append(alts, Eq(ref, r))
+			}
+		}
+		return scalar(bt, Or(alts...))
+	case "binding":
+		// binding("Fn$1", "x"): the value captured for free variable x by the closure created from Fn$1
+		fname, vname := strArg(args[0]), strArg(args[1])
+		for r, fn := range ex.closureFn {
+			if fn.Name() != fname || r.Op == "intconst" {
+				continue
+			}
+			for i, fv := range fn.FreeVars {
+				if fv.Name() == vname {
+					b := ex.closures[r][i]
+					if _, isPtr := fv.Type().Underlying().(*types.Pointer); isPtr {
+						// captured by reference: the current content of the cell
+						return env.st.load(ex.locOf(b))
+					}
+					return b
+				}
+			}
+		}
+		sfail("binding: no closure %s with free variable %s", fname, vname)
+	case "atcall", "aftercall":
+		// atcall("key", e): e evaluated in the state just before the (last) call; aftercall: just after it returned
+		recs := ex.recsFor(strArg(args[0]))
+		if len(recs) == 0 {
+			sfail("%s: no call %s recorded", name, strArg(args[0]))
+		}
+		var out Val
+		for k := len(recs) - 1; k >= 0; k-- {
+			n := *env
+			n.st = recs[k].Pre
+			if name == "aftercall" {
+				if recs[k].Post == nil {
+					sfail("aftercall: no post state for %s", recs[k].Key)
+				}
+				n.st = recs[k].Post
+			}
+			v := ex.eval(&n, args[1])
+			if v.Const != nil {
+				v = defaultType(v)
+			}
+			if k == len(recs)-1 {
+				out = v
+			} else {
+				out = iteVal(recs[k].Guard, v, out)
+			}
+		}
+		return out
 	case "spawned":
 		n := 0
 		for range ex.spawned {
